@@ -111,5 +111,5 @@ SPEC = {
     'subs': [Sub('effects', simp.cases, check_effects, {'quick': 3000, 'thorough': 200000})],
     'required_classes': {'effects': ['pass:RRG', 'pass:RRG+rm', 'pass:MU', 'pass:MDG', 'pass:MEG', 'top:pipe',
                                      'top:comp', 'top:list', 'top:cleanup', 'adjacent_equal',
-                                     'adjacent_rrg_flags_differ', 'mu_all_negations', 'mu_all_buffers']},
+                                     'adjacent_rrg_flags_differ', 'mu_all_negations', 'mu_all_buffers', 'declared_dependencies']},
 }
